@@ -121,13 +121,13 @@ CHECKS = {
     "C17": _c("exploration",
               "Deductive: maximal_mesh_pattern_of_occurrence = complement of the cells occupied by non-occurrence points; BiSC's own containment test "
               "(perm_contains_cl_patt_many_shadings) agrees with mesh-pattern containment (same notion of cell as the verified mesh occurrence listing).  Bounded: BiSC soundness/completeness/irredundancy on "
-              "ALL subsets of S0..S3 and seeded sets up to length 5, own containment vs definition, representations, clean-up, auto_bisc.", _BNOTE,
+              "ALL subsets of S0..S3 and seeded sets up to length 5, own containment vs definition, representations, one predicate object asked repeatedly (histories), clean-up, auto_bisc.", _BNOTE,
               "deductive contract for the occupied-cell computation + bounded run-time contracts over all small input sets"),
     "C18": _c("exploration",
               "Deductive (all sizes): point insertion (_add_point_new_perm through the iterator-split rule, cell splitting, add_point incl. the four directions), the six "
               "side conditions of the north-east shading lemma and the side conditions of the simultaneous lemma, can_shade / can_simul_shade (reported values name a corner "
               "point of the original cells), add_increase / add_decrease, region tests.  Bounded: every "
-              "shading-lemma licence vs equality of container sets (perms <=6/7), ascii round trip.", _BNOTE,
+              "shading-lemma licence vs equality of container sets (perms <=6/7), derived patterns vs fresh equal patterns after earlier queries (histories), ascii round trip.", _BNOTE,
               "deductive contracts (pyvc/z3) for point insertion and the side conditions + bounded run-time contracts vs container sets"),
     "C19": _c("exploration",
               "Deductive: shape helpers (fstrip, bstrip, zero_plus_perm, one_based), decomposability.  Bounded: every strategy vs its spec predicate, invariance under "
